@@ -343,6 +343,54 @@ def conc_runs(ctx, tsk):
     return runs
 
 
+def deep_tail(ctx, hcmd, dcmd, tsk):
+    """deep states: an operation-atomic history (the allocation cursors have gone round the pool, slots
+    permuted by out-of-order frees, pool near exhaustion), then every schedule with at most two
+    preemptions of the last one or two operations of each thread"""
+    from concurrent.futures import ThreadPoolExecutor
+    import re as _re
+    rng, q = ctx.rng, ctx.quick
+    base = [r for r in conc_runs(ctx, tsk)]
+    rng.shuffle(base)
+    base = base[:100 if q else 1500]
+    jobs0 = []
+    for r in base:
+        progs = r["conf"][0].split()[4:]
+        nops = [len(_re.findall(r"[a-zA-Z]", p)) for p in progs]
+        keep = [max(0, n - rng.choice([1, 1, 2])) for n in nops]
+        order = [t for t, k in enumerate(keep) for _ in range(k)]
+        rng.shuffle(order)
+        jobs0.append((r, order))
+    first = vlib.run_cases(hcmd, [r["conf"] + ["sched opseq " + " ".join(map(str, o)), "run"] for r, o in jobs0])
+    jobs = []
+    for (r, o), a in zip(jobs0, first):
+        sched = next((l.split()[1:] for l in a["out"] if l.startswith("schedule ")), None)
+        k = next((int(l.split()[1]) for l in a["out"] if l.startswith("#opseq-steps")), None)
+        if a["crash"] or sched is None or k is None:
+            continue
+        jobs.append((r, sched[:k]))
+    runs = []
+    stats = {"histories": len(jobs), "tail_schedules": 0, "exhausted": 0}
+
+    def explore(job):
+        r, pre = job
+        g = vlib.explore_schedules(hcmd, r["conf"], 2, max_runs=200 if q else 1500, start_prefix=pre, workers=1)
+        out = []
+        for s, _ in g:
+            x = dict(r)
+            x["sched"] = "replay " + " ".join(s)
+            x["tag"] = "deep-tail"
+            out.append(x)
+        return out, g.exhausted
+    with ThreadPoolExecutor(vlib.NPROC) as ex:
+        for out, exh in ex.map(explore, jobs):
+            runs += out
+            stats["tail_schedules"] += len(out)
+            stats["exhausted"] += bool(exh)
+    ctx.cov["deep_tail"] = stats
+    vlib.conc_correspondence(ctx, hcmd, dcmd, runs, judge=judge, label="tieC_deep_tail", escalate=False)
+
+
 # the interleavings that break the original lock-free allocation (both reproduce on the real code
 # before the repair); on the repaired tree the same client programs are explored systematically
 WITNESS = [
@@ -507,6 +555,7 @@ def main(ctx):
             runs.append(r)
     runs += seq_exhaustive(ctx, tsk) + seq_random(ctx, tsk) + seq_sowr_later(ctx) + malformed(ctx, tsk)
     vlib.conc_correspondence(ctx, hcmd, dcmd, runs, judge=judge, label="tieB_sequential_histories")
+    deep_tail(ctx, hcmd, dcmd, tsk)
     vlib.conc_correspondence(ctx, hcmd, dcmd, conc_runs(ctx, tsk), judge=judge, label="tieC")
     # systematic exploration
     sys_runs, exh = [], {}
